@@ -61,9 +61,12 @@ def run_case(ctx, case):
         f = obs.build(case["spec"])
         s = str(f)
         want = obs.spec_cells(case["spec"])
-        # the interpreter must agree with the spec (C01); otherwise attribute to C01
+        # the terminal string must itself show the spec (C01's subject); when it does not, parsing it
+        # cannot give the same FmtStr back either - reported here too, under its own mechanism
         if sgr.interpret(s)[0] != want:
-            ctx.count("skipped_because_C01_fails")
+            ctx.count("terminal_string_itself_wrong")
+            ctx.judge(False, case, ("C05", "c01", s), "C05:terminal-string-does-not-show-the-value",
+                      obs.show(want), obs.show(sgr.interpret(s)[0]), nontrivial=bool(want))
             return
         judge_string(ctx, case, s, want)
     else:
